@@ -1,5 +1,7 @@
 SPECIFICATION Spec
 CONSTANTS N = 2
+  W = 1
+  Kind = "u"
   LaneDom = {0, 1, 255}
   VRegs = {"v0", "v1"}
   KRegs = {"k0", "k1"}
